@@ -11,8 +11,10 @@ func All() map[string]core.Prop {
 		"C04": C04{},
 		"C05": C05{},
 		"C06": C06{},
+		"C07": C07{},
 		"C13": C13{},
 		"C15": C15{},
 		"C17": C17{},
+		"C19": C19{},
 	}
 }
